@@ -206,7 +206,7 @@ inductive StepEff (cfg : Cfg) (sh : Shared) (n t : Nat) (th : Thread) (alt : Nat
   | joined (w : Tid) (r : MRegs) (hth : th = .main (.jJoin w) r ∨ th = .main (.jDetach w) r) (hw : th' = .main .jL r)
       (h : SameQ sh sh') (hp : post = .none)
   /-- `_shutdown = true` under the mutex -/
-  | setShut (r : MRegs) (hth : th = .main .sFlagL r) (hw : th' = .main .sFlagU r) (hs : sh.shutdown = false) (h1 : sh'.tasks = sh.tasks)
+  | setShut (r r' : MRegs) (hth : th = .main .sFlagL r) (hw : th' = .main .sFlagU r') (hs : sh.shutdown = false) (h1 : sh'.tasks = sh.tasks)
       (ht : sh'.threads = sh.threads) (h3 : sh'.shutdown = true) (h4 : sh'.quiesced = sh.quiesced) (hp : post = .none)
   /-- inside `reset()` / `start()` (only with `Cfg.allowRestart`) -/
   | restart (hth : restartTh th = true)
@@ -422,7 +422,7 @@ theorem transM_eff (cfg : Cfg) (sh : Shared) (n t : Nat) (pc : MPc) (r : MRegs) 
     simp only [transM]
     split
     · exact quiet_main cfg _ _ n t alt _ _ _ _ _ ⟨rfl, rfl, rfl, rfl⟩ (fun nt e => by cases e) (by simp [calmPc]) (by simp [calmPc])
-    · next hs => exact .setShut r rfl rfl (by simpa using hs) rfl rfl rfl rfl rfl
+    · next hs => exact .setShut r _ rfl rfl (by simpa using hs) rfl rfl rfl rfl rfl
   | mSpawn sc =>
     simp only [transM]
     exact quiet_main cfg _ _ n t alt _ _ _ _ _ ⟨rfl, rfl, rfl, rfl⟩ (fun nt e => by cases e; rfl) (by simp [calmPc]) (by simp [calmPc])
@@ -450,7 +450,7 @@ theorem transM_eff (cfg : Cfg) (sh : Shared) (n t : Nat) (pc : MPc) (r : MRegs) 
         (SameQ.trans (⟨rfl, rfl, rfl, rfl⟩ : SameQ sh { sh with owner := none }) (drainReturn_sameQ { sh with owner := none } r false))
         (fun nt e => by cases e) (by simp [calmPc]) (drainReturn_calm { sh with owner := none } r false)
     all_goals exact quiet_main cfg _ _ n t alt _ _ _ _ _ ⟨rfl, rfl, rfl, rfl⟩ (fun nt e => by cases e) (by simp [calmPc]) (by simp [calmPc])
-  | sFlagUA =>
+  | sFlagUA ep =>
     simp only [transM]
     split
     · exact quiet_main cfg _ _ n t alt _ _ _ _ _
@@ -461,7 +461,7 @@ theorem transM_eff (cfg : Cfg) (sh : Shared) (n t : Nat) (pc : MPc) (r : MRegs) 
           (SameQ.trans (⟨rfl, rfl, rfl, rfl⟩ : SameQ sh { sh with owner := none }) (shutdownReturn_sameQ { sh with owner := none } r))
           (fun nt e => by cases e) (by simp [calmPc]) (shutdownReturn_calm { sh with owner := none } r)
       · exact quiet_main cfg _ _ n t alt _ _ _ _ _ ⟨rfl, rfl, rfl, rfl⟩ (fun nt e => by cases e) (by simp [calmPc]) (by simp [calmPc])
-  | sDoneZ =>
+  | sDoneZ ep =>
     simp only [transM]
     split
     · exact quiet_main cfg _ _ n t alt _ _ _ _ _ (shutdownReturn_sameQ sh r) (fun nt e => by cases e) (by simp [calmPc]) (shutdownReturn_calm sh r)
@@ -493,8 +493,8 @@ theorem transM_eff (cfg : Cfg) (sh : Shared) (n t : Nat) (pc : MPc) (r : MRegs) 
     split
     · exact quiet_main cfg _ _ n t alt _ _ _ _ _ ⟨rfl, rfl, rfl, rfl⟩ (fun nt e => by cases e) (by simp [calmPc]) (by simp [calmPc])
     · exact quiet_main cfg _ _ n t alt _ _ _ _ _
-        (SameQ.trans (⟨rfl, rfl, rfl, rfl⟩ : SameQ sh { sh with owner := none }) (shutdownReturn_sameQ { sh with owner := none } r))
-        (fun nt e => by cases e) (by simp [calmPc]) (shutdownReturn_calm { sh with owner := none } r)
+        (SameQ.trans (⟨rfl, rfl, rfl, rfl⟩ : SameQ sh { sh with owner := none, complete := r.ep }) (shutdownReturn_sameQ { sh with owner := none, complete := r.ep } r))
+        (fun nt e => by cases e) (by simp [calmPc]) (shutdownReturn_calm { sh with owner := none, complete := r.ep } r)
   | p2Z =>
     simp only [transM]
     split
